@@ -1,8 +1,8 @@
 package rules
 
 import (
-	"go/types"
 	"go/token"
+	"go/types"
 	"sort"
 	"strings"
 
@@ -199,7 +199,7 @@ func runC08(c *report.Ctx) {
 	ready := fn(c, pkgTxmgr, "WalletStatus", "Ready")
 	if onRm != nil && mark != nil && ready != nil {
 		found := false
-		for _, af := range append([]*ssa.Function{onRm}, onRm.AnonFuncs...) {
+		for _, af := range reachIn(p, onRm, pkgWallet) {
 			for _, s := range calls(af, mark) {
 				found = true
 				if an.AnyAtom(p.GuardsOf(s), func(a an.Atom) bool { return an.BoolCall(a, ready, "", true) }) {
